@@ -70,6 +70,7 @@ type SpecFunc struct {
 	Text    string
 	File    string
 	Rec     bool
+	Ghost   bool // ghost heap: a state-dependent map from the arguments to the result
 }
 
 type Axiom struct {
@@ -104,7 +105,7 @@ func newContracts() *Contracts {
 	return &Contracts{Funcs: map[string]*FuncContract{}, Specs: map[string]*SpecFunc{}, Decls: map[string][]string{}}
 }
 
-var keywordRe = regexp.MustCompile(`^(func|requires|ensures_on_panic|ensures|check|functional|closeonce|callpre|dyncall|modifies|pure|trusted|strict|mathint|maypanic|nobody|loop|param|spec|axiom|lemma|monitor|allocbound|decl)\b`)
+var keywordRe = regexp.MustCompile(`^(func|requires|ensures_on_panic|ensures|check|functional|closeonce|callpre|dyncall|ghost|modifies|pure|trusted|strict|mathint|maypanic|nobody|loop|param|spec|axiom|lemma|monitor|allocbound|decl)\b`)
 
 // preprocess rewrites `A ==> B` into implies(A, B) (lowest precedence within its paren group)
 // and `A <==> B` into iff(A, B).
@@ -438,6 +439,16 @@ func (cs *Contracts) parseContractFile(path string, content []byte, pkgName stri
 						}
 					}
 				}
+			}
+		case "ghost":
+			cs.parseSpecFunc(path, it.line, "func "+rest, pkgName)
+			// mark as ghost heap
+			name := strings.TrimSpace(rest)
+			if i := strings.Index(name, "("); i >= 0 {
+				name = name[:i]
+			}
+			if sf := cs.Specs[pkgName+"."+name]; sf != nil {
+				sf.Ghost = true
 			}
 		case "spec":
 			cs.parseSpecFunc(path, it.line, rest, pkgName)
